@@ -205,4 +205,471 @@ theorem realizesList_shape (σ : Store) : ∀ (inst : InstList) (vds : VDList) (
       realizes_shape σ i _ k h, realizesList_shape σ is _ _ hs]
 end
 
+/-! ## A write keeps the instance a realisation of the SAME description under the new store -/
+
+mutual
+theorem update_realizes (σ σ' : Store) (s : Nat) (hσ : ∀ t, t ≠ s → σ'.get t = σ.get t) :
+    ∀ (inst : Inst) (vd : VD) (k : Nat), Realizes σ inst vd → Realizes σ' (update σ' s inst k).1 vd
+  | .el id tag attrs ci, _, k, .el h => by
+    rw [update_el]; exact .el (updateList_realizes σ σ' s hσ ci _ k h)
+  | .text id t, _, k, .text => by rw [update_text]; exact .text
+  | .dynText id sig, _, k, .dynText => by rw [update_dynText]; exact .dynText
+  | .dynView a b sig alts cur, _, k, .dynView h => by
+    by_cases hs : sig = s
+    · subst hs
+      rw [update_dynView_eq]
+      exact .dynView (mountAlt_realizes σ' alts _ _)
+    · rw [update_dynView_ne _ _ _ _ _ _ _ _ hs]
+      refine .dynView ?_
+      rw [hσ sig hs]
+      exact updateList_realizes σ σ' s hσ cur _ k h
+  | .show a b sig ci, _, k, .show h => by
+    rw [update_show]; exact .show (updateList_realizes σ σ' s hσ ci _ k h)
+  | .frag ci, _, k, .frag h => by
+    rw [update_frag]; exact .frag (updateList_realizes σ σ' s hσ ci _ k h)
+theorem updateList_realizes (σ σ' : Store) (s : Nat) (hσ : ∀ t, t ≠ s → σ'.get t = σ.get t) :
+    ∀ (inst : InstList) (vds : VDList) (k : Nat), RealizesList σ inst vds →
+      RealizesList σ' (updateList σ' s inst k).1 vds
+  | .nil, _, k, .nil => .nil
+  | .cons i is, _, k, .cons h hs => by
+    rw [updateList_cons]
+    exact .cons (update_realizes σ σ' s hσ i _ k h) (updateList_realizes σ σ' s hσ is _ _ hs)
+end
+
+theorem Store.get_set_ne (σ : Store) (s v t : Nat) (h : t ≠ s) : Store.get (σ.set s v) t = σ.get t := by
+  simp [Store.get, List.getD_eq_getElem?_getD, List.getElem?_set_ne (Ne.symm h)]
+
+/-! ## Write histories -/
+
+/-- the driver's loop (`Driver/ViewDrv.lean` `runWrites`) without the printing -/
+def runWrites (σ : Store) (inst : InstList) (k : Nat) : List (Nat × Nat) → Store × InstList × Nat
+  | [] => (σ, inst, k)
+  | (s, v) :: ws =>
+    let σ' := σ.set s v
+    runWrites σ' (updateList σ' s inst k).1 (updateList σ' s inst k).2 ws
+
+theorem runWrites_realizes (vds : VDList) : ∀ (ws : List (Nat × Nat)) (σ : Store) (inst : InstList) (k : Nat),
+    RealizesList σ inst vds →
+    RealizesList (runWrites σ inst k ws).1 (runWrites σ inst k ws).2.1 vds
+  | [], _, _, _, h => h
+  | (s, v) :: ws, σ, inst, k, h => by
+    simp only [runWrites]
+    exact runWrites_realizes vds ws _ _ _
+      (updateList_realizes σ (σ.set s v) s (fun t ht => Store.get_set_ne σ s v t ht) inst vds k h)
+
+/-! ## Identities -/
+
+mutual
+/-- all node identities of a document, pre-order -/
+def ids : DTree → List Nat
+  | .elem id _ _ cs => id :: idsL cs
+  | .text id _ => [id]
+  | .comment id => [id]
+def idsL : List DTree → List Nat
+  | [] => []
+  | t :: ts => ids t ++ idsL ts
+end
+
+theorem idsL_append : ∀ a b : List DTree, idsL (a ++ b) = idsL a ++ idsL b
+  | [], b => rfl
+  | t :: ts, b => by simp [idsL, idsL_append ts b]
+
+mutual
+/-- all node identities owned by an instance (document order), INCLUDING the children a hidden `Show`
+keeps parked outside the document -/
+def Inst.ids : Inst → List Nat
+  | .el id _ _ cs => id :: cs.ids
+  | .text id _ => [id]
+  | .dynText id _ => [id]
+  | .dynView a b _ _ cur => a :: (cur.ids ++ [b])
+  | .show a b _ cs => a :: (cs.ids ++ [b])
+  | .frag cs => cs.ids
+def InstList.ids : InstList → List Nat
+  | .nil => []
+  | .cons i rest => i.ids ++ rest.ids
+end
+
+mutual
+/-- identities of the nodes that are NOT inside the content of a dynamic view on `s`
+(the two markers of such a view are stable; a `Show` keeps all its children) -/
+def stable (s : Nat) : Inst → List Nat
+  | .el id _ _ cs => id :: stableL s cs
+  | .text id _ => [id]
+  | .dynText id _ => [id]
+  | .dynView a b sig _ cur => if sig = s then [a, b] else a :: (stableL s cur ++ [b])
+  | .show a b _ cs => a :: (stableL s cs ++ [b])
+  | .frag cs => stableL s cs
+def stableL (s : Nat) : InstList → List Nat
+  | .nil => []
+  | .cons i rest => stable s i ++ stableL s rest
+end
+
+mutual
+/-- the instance with the content of every dynamic view on `s` cut out -/
+def skeleton (s : Nat) : Inst → Inst
+  | .el id tag attrs cs => .el id tag attrs (skeletonL s cs)
+  | .text id t => .text id t
+  | .dynText id sig => .dynText id sig
+  | .dynView a b sig alts cur =>
+    if sig = s then .dynView a b sig alts .nil else .dynView a b sig alts (skeletonL s cur)
+  | .show a b sig cs => .show a b sig (skeletonL s cs)
+  | .frag cs => .frag (skeletonL s cs)
+def skeletonL (s : Nat) : InstList → InstList
+  | .nil => .nil
+  | .cons i rest => .cons (skeleton s i) (skeletonL s rest)
+end
+
+mutual
+/-- no dynamic view in the instance reads `s` -/
+def noDynOn (s : Nat) : Inst → Bool
+  | .el _ _ _ cs => noDynOnL s cs
+  | .text _ _ => true
+  | .dynText _ _ => true
+  | .dynView _ _ sig _ cur => sig != s && noDynOnL s cur
+  | .show _ _ _ cs => noDynOnL s cs
+  | .frag cs => noDynOnL s cs
+def noDynOnL (s : Nat) : InstList → Bool
+  | .nil => true
+  | .cons i rest => noDynOn s i && noDynOnL s rest
+end
+
+mutual
+theorem stable_eq_ids_skeleton (s : Nat) : ∀ inst : Inst, stable s inst = (skeleton s inst).ids
+  | .el id tag attrs cs => by simp only [stable, skeleton, Inst.ids, stableL_eq_ids_skeletonL s cs]
+  | .text _ _ => rfl
+  | .dynText _ _ => rfl
+  | .dynView a b sig alts cur => by
+    simp only [stable, skeleton]
+    split
+    · simp [Inst.ids, InstList.ids]
+    · simp only [Inst.ids, stableL_eq_ids_skeletonL s cur]
+  | .show a b sig cs => by simp only [stable, skeleton, Inst.ids, stableL_eq_ids_skeletonL s cs]
+  | .frag cs => by simp only [stable, skeleton, Inst.ids, stableL_eq_ids_skeletonL s cs]
+theorem stableL_eq_ids_skeletonL (s : Nat) : ∀ inst : InstList, stableL s inst = (skeletonL s inst).ids
+  | .nil => rfl
+  | .cons i rest => by
+    simp only [stableL, skeletonL, InstList.ids, stable_eq_ids_skeleton s i, stableL_eq_ids_skeletonL s rest]
+end
+
+mutual
+theorem stable_sublist (s : Nat) : ∀ inst : Inst, (stable s inst).Sublist inst.ids
+  | .el id tag attrs cs => by
+    simp only [stable, Inst.ids]; exact (stableL_sublist s cs).cons_cons _
+  | .text _ _ => List.Sublist.refl _
+  | .dynText _ _ => List.Sublist.refl _
+  | .dynView a b sig alts cur => by
+    simp only [stable, Inst.ids]
+    split
+    · exact (List.sublist_append_right _ _).cons_cons _
+    · exact ((stableL_sublist s cur).append (List.Sublist.refl _)).cons_cons _
+  | .show a b sig cs => by
+    simp only [stable, Inst.ids]
+    exact ((stableL_sublist s cs).append (List.Sublist.refl _)).cons_cons _
+  | .frag cs => by simp only [stable, Inst.ids]; exact stableL_sublist s cs
+theorem stableL_sublist (s : Nat) : ∀ inst : InstList, (stableL s inst).Sublist inst.ids
+  | .nil => List.Sublist.refl _
+  | .cons i rest => by
+    simp only [stableL, InstList.ids]; exact (stable_sublist s i).append (stableL_sublist s rest)
+end
+
+mutual
+/-- the identities in the document are identities of the instance, in the same order -/
+theorem ids_dom_sublist (σ : Store) : ∀ inst : Inst, (idsL (dom σ inst)).Sublist inst.ids
+  | .el id tag attrs cs => by
+    rw [dom_el]; simp only [idsL, ids, Inst.ids, List.append_nil]
+    exact (ids_domList_sublist σ cs).cons_cons _
+  | .text _ _ => by rw [dom_text]; simp [idsL, ids, Inst.ids]
+  | .dynText _ _ => by rw [dom_dynText]; simp [idsL, ids, Inst.ids]
+  | .dynView a b sig alts cur => by
+    rw [dom_dynView]; simp only [idsL_append, idsL, ids, Inst.ids, List.append_nil, List.cons_append, List.nil_append]
+    exact ((ids_domList_sublist σ cur).append (List.Sublist.refl _)).cons_cons _
+  | .show a b sig cs => by
+    rw [dom_show]; simp only [idsL_append, idsL, ids, Inst.ids, List.append_nil, List.cons_append, List.nil_append]
+    split
+    · exact ((ids_domList_sublist σ cs).append (List.Sublist.refl _)).cons_cons _
+    · exact (List.sublist_append_right _ _).cons_cons _
+  | .frag cs => by rw [dom_frag]; simp only [Inst.ids]; exact ids_domList_sublist σ cs
+theorem ids_domList_sublist (σ : Store) : ∀ inst : InstList, (idsL (domList σ inst)).Sublist inst.ids
+  | .nil => by rw [domList_nil]; exact List.Sublist.refl _
+  | .cons i rest => by
+    rw [domList_cons, idsL_append]; simp only [InstList.ids]
+    exact (ids_dom_sublist σ i).append (ids_domList_sublist σ rest)
+end
+
+/-- `l` consists of distinct identities, all in `[k, k')` -/
+def FreshIn (k k' : Nat) (l : List Nat) : Prop := k ≤ k' ∧ (∀ x ∈ l, k ≤ x ∧ x < k') ∧ l.Nodup
+
+theorem freshIn_markers {k k' : Nat} {l : List Nat} (h1 : k + 2 ≤ k')
+    (h2 : ∀ x ∈ l, k + 2 ≤ x ∧ x < k') (h3 : l.Nodup) : FreshIn k k' (k :: (l ++ [k + 1])) := by
+  refine ⟨by omega, ?_, ?_⟩
+  · intro x hx
+    simp only [List.mem_cons, List.mem_append, List.not_mem_nil, or_false] at hx
+    rcases hx with rfl | hx | rfl
+    · omega
+    · have := h2 x hx; omega
+    · omega
+  · refine List.nodup_cons.2 ⟨fun hk => ?_, List.nodup_append.2 ⟨h3, by simp, fun a ha b hb => ?_⟩⟩
+    · simp only [List.mem_append, List.mem_cons, List.not_mem_nil, or_false] at hk
+      rcases hk with hk | hk
+      · have := h2 k hk; omega
+      · omega
+    · simp only [List.mem_cons, List.not_mem_nil, or_false] at hb
+      have := h2 a ha; omega
+
+mutual
+theorem mount_fresh (σ : Store) : ∀ (vd : VD) (k : Nat),
+    FreshIn k (mount σ vd k).2 (mount σ vd k).1.ids
+  | .el tag attrs cs, k => by
+    rw [mount_el]
+    have ⟨h1, h2, h3⟩ := mountList_fresh σ cs (k + 1)
+    simp only [Inst.ids]
+    refine ⟨by omega, ?_, ?_⟩
+    · intro x hx
+      rcases List.mem_cons.1 hx with rfl | hx
+      · omega
+      · have := h2 x hx; omega
+    · refine List.nodup_cons.2 ⟨fun hk => ?_, h3⟩
+      have := h2 k hk; omega
+  | .text s, k => by rw [mount_text]; simp [FreshIn, Inst.ids]
+  | .dynText sig, k => by rw [mount_dynText]; simp [FreshIn, Inst.ids]
+  | .dynView sig alts, k => by
+    rw [mount_dynView]
+    have ⟨h1, h2, h3⟩ := mountAlt_fresh σ alts (if alts.length = 0 then 0 else σ.get sig % alts.length) (k + 2)
+    simp only [Inst.ids]
+    exact freshIn_markers h1 h2 h3
+  | .show sig cs, k => by
+    rw [mount_show]
+    have ⟨h1, h2, h3⟩ := mountList_fresh σ cs (k + 2)
+    simp only [Inst.ids]
+    exact freshIn_markers h1 h2 h3
+  | .frag cs, k => by rw [mount_frag]; exact mountList_fresh σ cs k
+theorem mountList_fresh (σ : Store) : ∀ (vds : VDList) (k : Nat),
+    FreshIn k (mountList σ vds k).2 (mountList σ vds k).1.ids
+  | .nil, k => by rw [mountList_nil]; simp [FreshIn, InstList.ids]
+  | .cons v rest, k => by
+    rw [mountList_cons]
+    have ⟨h1, h2, h3⟩ := mount_fresh σ v k
+    have ⟨g1, g2, g3⟩ := mountList_fresh σ rest (mount σ v k).2
+    simp only [InstList.ids]
+    refine ⟨by omega, ?_, ?_⟩
+    · intro x hx
+      rcases List.mem_append.1 hx with hx | hx
+      · have := h2 x hx; omega
+      · have := g2 x hx; omega
+    · refine List.nodup_append.2 ⟨h3, g3, fun a ha b hb => ?_⟩
+      have := h2 a ha; have := g2 b hb; omega
+theorem mountAlt_fresh (σ : Store) : ∀ (alts : VDAlts) (i k : Nat),
+    FreshIn k (mountAlt σ alts i k).2 (mountAlt σ alts i k).1.ids
+  | .nil, _, k => by simp [mountAlt, FreshIn, InstList.ids]
+  | .cons a _, 0, k => mountList_fresh σ a k
+  | .cons _ r, i + 1, k => mountAlt_fresh σ r i k
+end
+
+mutual
+theorem update_skeleton (σ' : Store) (s : Nat) : ∀ (inst : Inst) (k : Nat),
+    skeleton s (update σ' s inst k).1 = skeleton s inst
+  | .el id tag attrs cs, k => by
+    rw [update_el]; simp only [skeleton, updateList_skeleton σ' s cs k]
+  | .text _ _, k => rfl
+  | .dynText _ _, k => rfl
+  | .dynView a b sig alts cur, k => by
+    by_cases hs : sig = s
+    · subst hs; rw [update_dynView_eq]; simp [skeleton]
+    · rw [update_dynView_ne _ _ _ _ _ _ _ _ hs]
+      simp only [skeleton, if_neg hs, updateList_skeleton σ' s cur k]
+  | .show a b sig cs, k => by
+    rw [update_show]; simp only [skeleton, updateList_skeleton σ' s cs k]
+  | .frag cs, k => by
+    rw [update_frag]; simp only [skeleton, updateList_skeleton σ' s cs k]
+theorem updateList_skeleton (σ' : Store) (s : Nat) : ∀ (inst : InstList) (k : Nat),
+    skeletonL s (updateList σ' s inst k).1 = skeletonL s inst
+  | .nil, k => rfl
+  | .cons i rest, k => by
+    rw [updateList_cons]
+    simp only [skeletonL, update_skeleton σ' s i k, updateList_skeleton σ' s rest _]
+end
+
+theorem update_stable (σ' : Store) (s : Nat) (inst : Inst) (k : Nat) :
+    stable s (update σ' s inst k).1 = stable s inst := by
+  rw [stable_eq_ids_skeleton, stable_eq_ids_skeleton, update_skeleton]
+
+theorem updateList_stable (σ' : Store) (s : Nat) (inst : InstList) (k : Nat) :
+    stableL s (updateList σ' s inst k).1 = stableL s inst := by
+  rw [stableL_eq_ids_skeletonL, stableL_eq_ids_skeletonL, updateList_skeleton]
+
+/-- every identity of `l'` is an identity of `l` or was allocated from `[k, k')` -/
+def OldOrNew (k k' : Nat) (l l' : List Nat) : Prop := k ≤ k' ∧ ∀ x ∈ l', x ∈ l ∨ (k ≤ x ∧ x < k')
+
+theorem oldOrNew_markers {k k' a b : Nat} {l l' : List Nat} (h : OldOrNew k k' l l') :
+    OldOrNew k k' (a :: (l ++ [b])) (a :: (l' ++ [b])) := by
+  refine ⟨h.1, fun x hx => ?_⟩
+  simp only [List.mem_cons, List.mem_append, List.not_mem_nil, or_false] at hx ⊢
+  rcases hx with rfl | hx | rfl
+  · exact .inl (.inl rfl)
+  · rcases h.2 x hx with h | h
+    · exact .inl (.inr (.inl h))
+    · exact .inr h
+  · exact .inl (.inr (.inr rfl))
+
+mutual
+theorem update_ids (σ' : Store) (s : Nat) : ∀ (inst : Inst) (k : Nat),
+    OldOrNew k (update σ' s inst k).2 inst.ids (update σ' s inst k).1.ids
+  | .el id tag attrs cs, k => by
+    rw [update_el]; simp only [Inst.ids]
+    have ⟨h1, h2⟩ := updateList_ids σ' s cs k
+    refine ⟨h1, fun x hx => ?_⟩
+    rcases List.mem_cons.1 hx with rfl | hx
+    · exact .inl (List.mem_cons_self ..)
+    · rcases h2 x hx with h | h
+      · exact .inl (List.mem_cons_of_mem _ h)
+      · exact .inr h
+  | .text _ _, k => by rw [update_text]; exact ⟨Nat.le_refl _, fun x hx => .inl hx⟩
+  | .dynText _ _, k => by rw [update_dynText]; exact ⟨Nat.le_refl _, fun x hx => .inl hx⟩
+  | .dynView a b sig alts cur, k => by
+    by_cases hs : sig = s
+    · subst hs; rw [update_dynView_eq]; simp only [Inst.ids]
+      have ⟨h1, h2, _⟩ := mountAlt_fresh σ' alts (if alts.length = 0 then 0 else σ'.get sig % alts.length) k
+      exact oldOrNew_markers ⟨h1, fun x hx => .inr (h2 x hx)⟩
+    · rw [update_dynView_ne _ _ _ _ _ _ _ _ hs]; simp only [Inst.ids]
+      exact oldOrNew_markers (updateList_ids σ' s cur k)
+  | .show a b sig cs, k => by
+    rw [update_show]; simp only [Inst.ids]
+    exact oldOrNew_markers (updateList_ids σ' s cs k)
+  | .frag cs, k => by rw [update_frag]; simp only [Inst.ids]; exact updateList_ids σ' s cs k
+theorem updateList_ids (σ' : Store) (s : Nat) : ∀ (inst : InstList) (k : Nat),
+    OldOrNew k (updateList σ' s inst k).2 inst.ids (updateList σ' s inst k).1.ids
+  | .nil, k => by rw [updateList_nil]; exact ⟨Nat.le_refl _, fun x hx => .inl hx⟩
+  | .cons i rest, k => by
+    rw [updateList_cons]; simp only [InstList.ids]
+    have ⟨h1, h2⟩ := update_ids σ' s i k
+    have ⟨g1, g2⟩ := updateList_ids σ' s rest (update σ' s i k).2
+    refine ⟨by omega, fun x hx => ?_⟩
+    rcases List.mem_append.1 hx with hx | hx
+    · rcases h2 x hx with h | h
+      · exact .inl (List.mem_append_left _ h)
+      · exact .inr (by omega)
+    · rcases g2 x hx with h | h
+      · exact .inl (List.mem_append_right _ h)
+      · exact .inr (by omega)
+end
+
+/-- all identities below the counter, no identity twice -/
+def IdsOk (k : Nat) (l : List Nat) : Prop := (∀ x ∈ l, x < k) ∧ l.Nodup
+
+theorem nodup_markers {k k' a b : Nat} {l l' : List Nat} (h : IdsOk k (a :: (l ++ [b])))
+    (hn : OldOrNew k k' l l') (hd : l'.Nodup) : (a :: (l' ++ [b])).Nodup := by
+  obtain ⟨hlt, hnd⟩ := h
+  have ha : a < k := hlt a (by simp)
+  have hb : b < k := hlt b (by simp)
+  rw [List.nodup_cons, List.nodup_append] at hnd
+  obtain ⟨hal, _, _, hlb⟩ := hnd
+  simp only [List.mem_append, List.mem_cons, List.not_mem_nil, or_false, not_or] at hal
+  refine List.nodup_cons.2 ⟨fun hk => ?_, List.nodup_append.2 ⟨hd, by simp, fun x hx y hy => ?_⟩⟩
+  · simp only [List.mem_append, List.mem_cons, List.not_mem_nil, or_false] at hk
+    rcases hk with hk | hk
+    · rcases hn.2 a hk with h | h
+      · exact hal.1 h
+      · omega
+    · exact hal.2 hk
+  · simp only [List.mem_cons, List.not_mem_nil, or_false] at hy
+    subst hy
+    rcases hn.2 x hx with h | h
+    · exact hlb x h y (by simp)
+    · omega
+
+theorem IdsOk.mid {k a b : Nat} {l : List Nat} (h : IdsOk k (a :: (l ++ [b]))) : IdsOk k l := by
+  refine ⟨fun x hx => h.1 x (by simp [hx]), ?_⟩
+  have := h.2
+  rw [List.nodup_cons, List.nodup_append] at this
+  exact this.2.1
+
+mutual
+theorem update_nodup (σ' : Store) (s : Nat) : ∀ (inst : Inst) (k : Nat), IdsOk k inst.ids →
+    (update σ' s inst k).1.ids.Nodup
+  | .el id tag attrs cs, k, h => by
+    rw [update_el]; simp only [Inst.ids] at h ⊢
+    have hcs : IdsOk k cs.ids := ⟨fun x hx => h.1 x (List.mem_cons_of_mem _ hx), (List.nodup_cons.1 h.2).2⟩
+    refine List.nodup_cons.2 ⟨fun hk => ?_, updateList_nodup σ' s cs k hcs⟩
+    rcases (updateList_ids σ' s cs k).2 id hk with h' | h'
+    · exact (List.nodup_cons.1 h.2).1 h'
+    · have := h.1 id (List.mem_cons_self ..); omega
+  | .text _ _, k, h => by rw [update_text]; exact h.2
+  | .dynText _ _, k, h => by rw [update_dynText]; exact h.2
+  | .dynView a b sig alts cur, k, h => by
+    by_cases hs : sig = s
+    · subst hs; rw [update_dynView_eq]; simp only [Inst.ids] at h ⊢
+      have ⟨h1, h2, h3⟩ := mountAlt_fresh σ' alts (if alts.length = 0 then 0 else σ'.get sig % alts.length) k
+      exact nodup_markers h ⟨h1, fun x hx => .inr (h2 x hx)⟩ h3
+    · rw [update_dynView_ne _ _ _ _ _ _ _ _ hs]; simp only [Inst.ids] at h ⊢
+      exact nodup_markers h (updateList_ids σ' s cur k) (updateList_nodup σ' s cur k h.mid)
+  | .show a b sig cs, k, h => by
+    rw [update_show]; simp only [Inst.ids] at h ⊢
+    exact nodup_markers h (updateList_ids σ' s cs k) (updateList_nodup σ' s cs k h.mid)
+  | .frag cs, k, h => by
+    rw [update_frag]; simp only [Inst.ids] at h ⊢; exact updateList_nodup σ' s cs k h
+theorem updateList_nodup (σ' : Store) (s : Nat) : ∀ (inst : InstList) (k : Nat), IdsOk k inst.ids →
+    (updateList σ' s inst k).1.ids.Nodup
+  | .nil, k, h => by rw [updateList_nil]; exact h.2
+  | .cons i rest, k, h => by
+    rw [updateList_cons]; simp only [InstList.ids] at h ⊢
+    obtain ⟨hlt, hnd⟩ := h
+    rw [List.nodup_append] at hnd
+    obtain ⟨hi, hr, hdisj⟩ := hnd
+    have ⟨h1, h2⟩ := update_ids σ' s i k
+    have ⟨g1, g2⟩ := updateList_ids σ' s rest (update σ' s i k).2
+    have hiok : IdsOk k i.ids := ⟨fun x hx => hlt x (List.mem_append_left _ hx), hi⟩
+    have hrok : IdsOk (update σ' s i k).2 rest.ids :=
+      ⟨fun x hx => Nat.lt_of_lt_of_le (hlt x (List.mem_append_right _ hx)) h1, hr⟩
+    refine List.nodup_append.2 ⟨update_nodup σ' s i k hiok, updateList_nodup σ' s rest _ hrok,
+      fun x hx y hy => ?_⟩
+    rcases h2 x hx with hx' | hx' <;> rcases g2 y hy with hy' | hy'
+    · exact hdisj x hx' y hy'
+    · have := hlt x (List.mem_append_left _ hx'); omega
+    · have := hlt y (List.mem_append_right _ hy'); omega
+    · omega
+end
+
+/-- the invariant `IdsOk` is preserved by a write -/
+theorem updateList_idsOk (σ' : Store) (s : Nat) (inst : InstList) (k : Nat) (h : IdsOk k inst.ids) :
+    IdsOk (updateList σ' s inst k).2 (updateList σ' s inst k).1.ids := by
+  refine ⟨fun x hx => ?_, updateList_nodup σ' s inst k h⟩
+  have ⟨h1, h2⟩ := updateList_ids σ' s inst k
+  rcases h2 x hx with h' | h'
+  · exact Nat.lt_of_lt_of_le (h.1 x h') h1
+  · exact h'.2
+
+theorem mountList_idsOk (σ : Store) (vds : VDList) (k : Nat) :
+    IdsOk (mountList σ vds k).2 (mountList σ vds k).1.ids :=
+  have ⟨_, h2, h3⟩ := mountList_fresh σ vds k
+  ⟨fun x hx => (h2 x hx).2, h3⟩
+
+theorem runWrites_idsOk : ∀ (ws : List (Nat × Nat)) (σ : Store) (inst : InstList) (k : Nat),
+    IdsOk k inst.ids → IdsOk (runWrites σ inst k ws).2.2 (runWrites σ inst k ws).2.1.ids
+  | [], _, _, _, h => h
+  | (s, v) :: ws, σ, inst, k, h => by
+    simp only [runWrites]
+    exact runWrites_idsOk ws _ _ _ (updateList_idsOk (σ.set s v) s inst k h)
+
+mutual
+theorem update_untouched (σ' : Store) (s : Nat) : ∀ (inst : Inst) (k : Nat), noDynOn s inst = true →
+    update σ' s inst k = (inst, k)
+  | .el id tag attrs cs, k, h => by
+    rw [update_el, updateList_untouched σ' s cs k (by simpa [noDynOn] using h)]
+  | .text _ _, k, _ => rfl
+  | .dynText _ _, k, _ => rfl
+  | .dynView a b sig alts cur, k, h => by
+    simp only [noDynOn, Bool.and_eq_true, bne_iff_ne, ne_eq] at h
+    rw [update_dynView_ne _ _ _ _ _ _ _ _ h.1, updateList_untouched σ' s cur k h.2]
+  | .show a b sig cs, k, h => by
+    rw [update_show, updateList_untouched σ' s cs k (by simpa [noDynOn] using h)]
+  | .frag cs, k, h => by
+    rw [update_frag, updateList_untouched σ' s cs k (by simpa [noDynOn] using h)]
+theorem updateList_untouched (σ' : Store) (s : Nat) : ∀ (inst : InstList) (k : Nat),
+    noDynOnL s inst = true → updateList σ' s inst k = (inst, k)
+  | .nil, k, _ => rfl
+  | .cons i rest, k, h => by
+    simp only [noDynOnL, Bool.and_eq_true] at h
+    rw [updateList_cons, update_untouched σ' s i k h.1, updateList_untouched σ' s rest k h.2]
+end
+
 end SycVerif.DomView
